@@ -392,6 +392,12 @@ Theorem C03_create_exit_11_is_never_a_false_alarm : forall Hb matches C cdig ser
     find_first (lh_gens (route_to hs p)) (strip_prefix (lh_root (route_to hs p)) p) f = Some e /\ e_digest e <> digest_text Hb f c.
 Proof. exact create_exit_11_genuine. Qed.
 Print Assumptions C03_create_exit_11_is_never_a_false_alarm.
+(* the tie of the two counting rules to the source (regenerated on every run from commands.py by translator/gen.py):
+   create -sf counts one failure per sealed file, decided by the first requested format's verdict (Model/Create.v
+   seal_file, Model/Commands.v sf_step); create in folder mode counts one per failed format of every sealed file
+   (process_event); both exit 11 exactly when the count is positive *)
+Theorem C03_failure_counting_rules : sf_count_rule = 1%N /\ folder_count_rule = 2%N.
+Proof. split; reflexivity. Qed.
 (* every verdict of such a run on that file is a failure, and every requested format has a verdict *)
 Theorem C03_altered_file_every_verdict_fails : forall gens p dg req x,
   find_original gens p <> None -> (forall f e, find_first gens p f = Some e -> e_digest e <> dg f) ->
